@@ -68,4 +68,33 @@ def findSequence : List Nat → List SubPat → Nat
     | none => 0
     | some e => 1 + findSequence (s.drop e) ts
 
+/-! ## bounds instrumentation: `true` iff every slice access of the Go loops is in range
+(the `*OK` functions follow the same recursion as the functions above and only record the index checks that the
+Go runtime performs: `val[cur]` is read only when `cur > 0` holds in the loop condition, `prefFunc[cur-1]` in the
+loop body, `val[cur]` again in the `if`, `prefFunc[i+1]` is written at the end of a `calcPrefFunc` iteration) -/
+
+def fallbackOK (val pf : List Nat) (b : Nat) : Nat → Nat → Bool
+  | 0, _ => true
+  | fuel + 1, cur =>
+    if 0 < cur then
+      decide (cur < val.length) &&
+        (if b ≠ val.getD cur 0 then decide (cur - 1 < pf.length) && fallbackOK val pf b fuel (pf.getD (cur - 1) 0)
+         else true)
+    else true
+
+def kmpStepOK (val pf : List Nat) (b cur : Nat) : Bool :=
+  fallbackOK val pf b cur cur && decide (fallback val pf b cur cur < val.length)
+
+def calcLoopOK (val : List Nat) : List Nat → Nat → Nat → List Nat → Bool
+  | [], _, _, _ => true
+  | b :: rest, i, cur, pf =>
+    kmpStepOK val pf b cur && decide (i + 1 < pf.length) &&
+      calcLoopOK val rest (i + 1) (kmpStep val pf b cur) (pf.set (i + 1) (kmpStep val pf b cur))
+
+def findLoopOK (val pf : List Nat) : List Nat → Nat → Bool
+  | [], _ => true
+  | b :: rest, cur =>
+    kmpStepOK val pf b cur &&
+      (if kmpStep val pf b cur = val.length then true else findLoopOK val pf rest (kmpStep val pf b cur))
+
 end SV.Kmp
